@@ -357,18 +357,20 @@ static int gnutls_verify_sha_pem(jwt_t *jwt, const char *head,
 	case JWT_ALG_ES256K:
 	case JWT_ALG_ES384:
 	case JWT_ALG_ES512:
-		/* XXX Gotta be a better way. */
-		if (sig_len == 64) {
+		/* r and s are each as wide as the curve the algorithm uses:
+		 * any other length is not a signature for this algorithm. */
+		if (sig_len == 64 && (jwt->alg == JWT_ALG_ES256 ||
+				      jwt->alg == JWT_ALG_ES256K)) {
 			r.size = 32;
 			r.data = sig;
 			s.size = 32;
 			s.data = sig + 32;
-		} else if (sig_len == 96) {
+		} else if (sig_len == 96 && jwt->alg == JWT_ALG_ES384) {
 			r.size = 48;
 			r.data = sig;
 			s.size = 48;
 			s.data = sig + 48;
-		} else if (sig_len == 132) {
+		} else if (sig_len == 132 && jwt->alg == JWT_ALG_ES512) {
 			r.size = 66;
 			r.data = sig;
 			s.size = 66;
